@@ -184,4 +184,51 @@ example : (run (init true 2) [.spawn, .feed 1, .feed 2, .take, .send, .unlock, .
 example : (rrun { todo := [[(0, 1), (0, 2)], [(1, 1)]], cap := 1 } [.emit 0, .emit 1, .relay, .emit 1, .relay, .emit 0, .relay]).port =
     [(0, 1), (1, 1), (0, 2)] := by decide
 
+/-! ### the input relay: what the consumer has received is always a prefix of what arrived, in arrival order -/
+
+def IInv (orig : List Nat) (r : InRelay) : Prop := r.delivered ++ r.q2 ++ r.q1 ++ r.src = orig
+
+theorem istep_inv (orig : List Nat) (r : InRelay) (x : IStep) (h : IInv orig r) : IInv orig (istep r x) := by
+  unfold IInv at *
+  cases x <;> simp only [istep]
+  · split
+    · split
+      · rename_i m rest hs _
+        simp only
+        rw [← h, hs]; simp
+      · exact h
+    · exact h
+  · split
+    · split
+      · rename_i m rest hs _
+        simp only
+        rw [← h, hs]; simp
+      · exact h
+    · exact h
+  · split
+    · rename_i m rest hs
+      simp only
+      rw [← h, hs]; simp
+    · exact h
+
+theorem irun_inv (orig : List Nat) (xs : List IStep) : ∀ r, IInv orig r → IInv orig (irun r xs) := by
+  induction xs with
+  | nil => intro r h; exact h
+  | cons x xs ih => intro r h; exact ih _ (istep_inv orig r x h)
+
+/-- **input direction, every schedule**: whatever the interleaving of arrivals, the internal hand-over and the consumer,
+    the consumer has received a prefix of the arrival sequence — nothing lost, duplicated or reordered — and the rest is
+    still queued in order -/
+theorem C15_input_relay_order (msgs : List Nat) (c1 c2 : Nat) (xs : List IStep) :
+    let r := irun { src := msgs, cap1 := c1, cap2 := c2 } xs
+    r.delivered ++ r.q2 ++ r.q1 ++ r.src = msgs ∧ r.delivered <+: msgs := by
+  intro r
+  have h : IInv msgs r := irun_inv msgs xs _ (by simp [IInv])
+  refine ⟨h, ?_⟩
+  unfold IInv at h
+  exact ⟨r.q2 ++ r.q1 ++ r.src, by rw [← h]; simp⟩
+
+example : (irun { src := [1, 2, 3], cap1 := 1, cap2 := 1 } [.arrive, .arrive, .move, .arrive, .deliver, .move]).delivered = [1] := by
+  decide
+
 end Hidi.Props.C15
